@@ -185,7 +185,9 @@ CLAIMED = {
               "the unused gradients). The document-level "
               "invariant (unique ids, every url(#x) fill resolves to a gradient in defs, no unreferenced gradient, no href) is judged on "
               "every converted document from a generator that stresses shared references and colliding generated ids; the pipeline "
-              "model is tied to the code on the same documents."),
+              "model is tied to the code on the same documents. reference_read_whatever_follows: url(#id) followed by anything "
+              "(nothing, a fallback after white space or glued on) is read as that id, for every id free of ')', quotes and "
+              "white space."),
         note=("Trusted: Lean kernel; core axioms only; harness reference checker; lxml. Defects repaired: orphans after pruning, paint "
               "reference forms, text stroke gradients, gradients inside anonymous symbols. One recorded finding (known_findings.json, KNOWN-FINDING on "
               "every run): a paint reference to a pattern element is left dangling. "
